@@ -127,7 +127,7 @@ var props = map[string]propCfg{
 	"C08": {Focus: "C08", Arms: []string{"clean", "clean", "redis"}, Probes: []string{"cache_hit", "c08_ttl_checked", "cache_hit_last_quarter"}},
 	"C17": {Focus: "C17", Arms: []string{"addr", "auth", "mtls", "pair"}, Probes: []string{"c17a_case_checked", "c17b_case_checked", "c17_mtls_checked", "c17_mtls_unacceptable_client", "c17_pair_mustfail_checked", "c17_pair_ok_checked"}},
 	"C18": {Focus: "C18", Arms: []string{"xclose", "rclose", "startfault", "xclose", "latedial"}, Rare: []string{"exhaust"}, RareEvery: 1500, Probes: []string{"c18_upstream_close_checked", "c18_router_close_checked", "c18_call_after_close", "c18_call_inflight_at_close"}},
-	"C19": {Focus: "C19", Arms: []string{"clean", "clean", "prefetch"}, Probes: []string{"cache_hit", "cache_hit_last_quarter", "c07_hit_expected"}},
+	"C19": {Focus: "C19", Arms: []string{"clean", "clean", "prefetch", "redis"}, Probes: []string{"cache_hit", "cache_hit_last_quarter", "c07_hit_expected"}},
 	"C09": {Focus: "C09", Arms: []string{"clean", "clean", "codec"}, Probes: []string{"c09_truncated", "c09_fits"}},
 	"C10": {Focus: "C10", Arms: []string{"clean", "startfault", "clean", "prefetch", "cli", "burst"}, Probes: []string{"c10_cli_unknown_key_rejected", "c10_cli_control_started", "c10_forward_checked", "c10_reject", "c10_refused"}},
 	"C11": {Focus: "C11", Arms: []string{"clean", "clean", "burst"}, Probes: []string{"c10_forward_checked", "c11_matched", "c11_unmatched"}},
